@@ -346,7 +346,7 @@ func c08Run(w *W, idx int) {
 		w.Inc("edited_config_compilations")
 		if a != nil && b != nil {
 			if d := c08Same(b, a); d != "" {
-				w.Fail("compile-not-deterministic/edited-config", "after the caller edited its Config (stateless list entries replaced in place, operator implementations exchanged, a constant changed), Compile gives a different program than with an equal Config that was never used: %s\nsource: %q\nconfig: %s", d, firstN(c.src, 1500), c.desc)
+				w.Fail("compile-not-deterministic/edited-config", "after the caller edited its Config (stateless list entries replaced in place, operator implementations exchanged, a constant, a cost or an optimization switch changed), Compile gives a different program than with an equal Config that was never used: %s\nsource: %q\nconfig: %s", d, firstN(c.src, 1500), c.desc)
 			}
 		}
 	}
@@ -389,6 +389,23 @@ func c08Edit(cc *eval.Config, seed int64) {
 				}
 			}
 		}
+	}
+	// a cost entry changed / added, one optimization switch flipped
+	if cc.CostsMap != nil && r.Intn(2) == 0 {
+		names := make([]string, 0, len(cc.CostsMap))
+		for n := range cc.CostsMap {
+			names = append(names, n)
+		}
+		sort.Strings(names)
+		if len(names) > 0 {
+			cc.CostsMap[names[r.Intn(len(names))]] = float64(r.Intn(2000) - 500)
+		}
+		cc.CostsMap["variable"] = float64(r.Intn(50))
+	}
+	if r.Intn(3) == 0 {
+		o := []eval.CompileOption{eval.ConstantFolding, eval.ReduceNesting, eval.FastEvaluation, eval.Reordering}[r.Intn(4)]
+		cur, ok := cc.CompileOptions[o]
+		cc.CompileOptions[o] = ok && !cur
 	}
 	if v, ok := cc.ConstantMap["KI"]; ok && r.Intn(2) == 0 {
 		if x, isInt := v.(int64); isInt {
